@@ -27,7 +27,7 @@ let read_trule () =
   let cost = next () in
   let ns = next () in
   let slots = times ns (fun () -> let s = next () in if s = 0 then None else Some (nat_of_int (s - 1))) in
-  { tl = nat_of_int l; tr_rhs = rhs;
+  { t_lhs = nat_of_int l; tr_rhs = rhs;
     tr_anode = (if an = 0 then None else Some (nat_of_int (an - 1), z_of_int cost)); tr_slots = slots }
 let read_tgrammar () = let n = next () in times n read_trule
 
@@ -99,6 +99,35 @@ let answer kw =
         (k, o)) in
       let (_, rs) = mrun [] ops in
       String.concat " " (List.map (fun z -> string_of_int (int_of_z z)) rs)
+  | "HT" ->
+      (* size a m nops then ops: 0 find k | 1 insert k | 2 remove k | 3 empty | 4 num | 5 size *)
+      let sz = next () in let a = next () in let m = next () in
+      let n = next () in
+      let ops = times n (fun () -> match next () with
+        | 0 -> HFind (nat_of_int (next ())) | 1 -> HInsert (nat_of_int (next ())) | 2 -> HRemove (nat_of_int (next ()))
+        | 3 -> HEmpty | 4 -> HNum | _ -> HSize) in
+      (match create (nat_of_int sz) (nat_of_int a) (nat_of_int m) with
+       | None -> "none"
+       | Some t -> (match hrun t ops with
+           | None -> "none"
+           | Some rs -> String.concat " " (List.concat_map (fun r -> match r with Some v -> [string_of_int (int_of_nat v)] | None -> []) rs)))
+  | "VLO" ->
+      (* len nops then ops: 0 add n bytes | 1 expand n | 2 shorten n | 3 nullify | 4 tailor | 5 dump *)
+      let len = next () in let n = next () in
+      let ops = times n (fun () -> match next () with
+        | 0 -> let m = next () in VAdd (times m (fun () -> nat_of_int (next ())))
+        | 1 -> VExpand (nat_of_int (next ())) | 2 -> VShorten (nat_of_int (next ())) | 3 -> VNullify | 4 -> VTailor | _ -> VDump) in
+      let outs = vrun (vcreate (nat_of_int len)) ops in
+      String.concat ";" (List.map (fun l -> String.concat "," (List.map (fun b -> string_of_int (int_of_nat b)) l)) outs)
+  | "OS" ->
+      (* len nops then ops: 0 add n bytes | 1 expand n | 2 shorten n | 3 nullify | 4 finish | 5 empty | 6 dumptop | 7 check *)
+      let len = next () in let n = next () in
+      let ops = times n (fun () -> match next () with
+        | 0 -> let m = next () in OAdd (times m (fun () -> nat_of_int (next ())))
+        | 1 -> OExpand (nat_of_int (next ())) | 2 -> OShorten (nat_of_int (next ())) | 3 -> ONullify | 4 -> OFinish
+        | 5 -> OEmpty | 6 -> ODumpTop | _ -> OCheck) in
+      let outs = orun (ocreate (nat_of_int len)) ops in
+      String.concat "|" (List.map (fun ll -> String.concat ";" (List.map (fun l -> String.concat "," (List.map (fun b -> string_of_int (int_of_nat b)) l)) ll)) outs)
   | _ -> "error unknown query " ^ kw
 
 let () =
